@@ -241,6 +241,7 @@ class Repo:
         from . import alpha
 
         self.renamed_back = alpha.undo_renames(self)
+        self.folded = alpha.fold_new_condition_temps(self)
 
     def _abs_module(self, mod: Mod, level: int, target: Optional[str]) -> str:
         """Resolve a relative import to a package-relative module name."""
